@@ -185,7 +185,8 @@ def _explore_and_report(args, prop, tier, seed, engine, evidence, findings):
 
     # minimise the unlisted ones (bounded), in parallel
     cap = machine.TIERS[tier].get("shrink_cap_s", 60)
-    max_min = machine.TIERS[tier].get("max_minimised", 10)
+    max_min = int(os.environ.get("VERIF_MAX_MINIMISED") or
+                  machine.TIERS[tier].get("max_minimised", 10))
     to_min = new[:max_min]
     shrunk = {}
     if to_min:
